@@ -33,6 +33,10 @@ CHECKS = {
    text="Real gmsm code runs as tasks under a seeded cooperative scheduler that owns every interleaving at statement (~3800 inserted yield points), lock, once, atomic and network granularity (instrumented scratch copy). Six programs: one shared sm4 cipher.Block; package-level SM2/SM3/SM4/X.509/PKCS#7 operations incl. first use of the curve; LRU session cache; one CertPool; one established connection with concurrent readers, writers and Close; one server Config with simultaneous handshakes, ticket rotation and Clone. Oracles: equality with the same call run alone; porcupine linearizability (cache; connection as FIFO pipe with atomic writes); the Go race detector evaluated on the simulated interleaving - the hand-off baton between tasks is invisible to it, so a report is deterministic per seed; deadlock and panic.",
    note="Sampling of schedules (random gaps and PCT), not enumeration. The race oracle inherits the detector's bounded shadow history (can miss, cannot invent). Statement-level yields only in the files listed in DESIGN 5/C20.",
    technique="deterministic simulation: seeded cooperative scheduler over instrumented real code (statement/lock/atomic preemption), race detector as happens-before oracle under the simulated schedule, porcupine linearizability of recorded histories, ddmin-minimised replayable schedules"),
+ "C15": dict(level="exploration", design="5 (C15), Appendix C",
+   text="One real gmtls endpoint (client; server in GMSSL-only, auto-switch and TLS mode) against a scripted, independent GM/T 0024 peer on the simulated network. Scripts are drawn per run from the alphabet of Appendix C: 1-3 wire deviations at drawn message positions (wrong type, duplicate, omission, truncation, rewritten length bytes, inserted application data / ChangeCipherSpec / alerts / unknown records, end of stream before or inside every record, stall with and without a virtual-time deadline), hello-level content (version sweep 0x0000..0x0400 with GM and TLS suites, suite lists, compression, ServerHello selections, certificate lists with non-EC keys) and legal variations that must still complete (fragmentation, coalescing, unknown extensions and suites). The reference peer keeps its honest transcript, so every byte-changing deviation must end in an error on the endpoint.",
+   note="Trusts the reftls endpoints (honest scripts in every batch complete against unmodified gmtls in both roles). A TLS-mode server is only exercised up to what a GM scripted client can send (ClientHello-level and record-level junk).",
+   technique="deterministic simulation with fault injection: scripted misbehaving peer and peer crash (EOF) at every record boundary and inside records on a simulated network with virtual-time deadlines; oracle = error / never complete / no panic / returns once input ended; ddmin-minimised replay files"),
  "C19": dict(level="exploration", design="5 (C19)",
    text="Seeded simulation of the sources and sinks around the streaming PKCS#7 helpers: every Read/Write size and behaviour (short non-EOF read, 1-byte, (0,nil), data+EOF) is a choice; a separate fault family injects one source or sink error at a drawn offset. Oracle: reference padding model (exact equality fault-free; error surfaced and emitted bytes a prefix under an injected error).",
    note="Trusts the 6-line refpad model and stdlib AES/DES-CBC (used as the block mode so SM4 changes cannot raise C19 alarms).",
